@@ -78,6 +78,26 @@ func runSamFam(vec map[string]interface{}) map[string]interface{} {
 		wrap := gIntD(r, "wrap", -1)
 		t := gIntD(r, "t", 1)
 		switch gStr(r, "cmd") {
+		case "samvar", "topavar":
+			// sam variants on the abstract block, and variants on the real toPairAlign output of the same block (C11, C05)
+			anno := renderGenbank(gSeq(vec, "ref"), nil)
+			var out bytes.Buffer
+			var err error
+			ok := true
+			if gStr(r, "cmd") == "samvar" {
+				err, ok = callWithDeadline(callDeadline, func() error {
+					return sam.Variants(bytes.NewReader(samData), bytes.NewReader(refFa), true, bytes.NewReader(anno), "gb", &out, -1, -1, false, 0.0, false, t)
+				})
+			} else {
+				err, ok = topaVariants(samData, refFa, anno, "gb", -1, -1, false, &out)
+			}
+			if !ok {
+				obs["timeout"] = true
+				return obs
+			}
+			pv := parseVariantsOut(out.String(), false)
+			res["err"] = errStr(err)
+			res["rows"] = pv["rows"]
 		case "toma":
 			var out bytes.Buffer
 			err, ok := callWithDeadline(callDeadline, func() error {
